@@ -344,7 +344,7 @@ func vfc47Case(r *vfkit.Run, c int, rng *rand.Rand, w *vfc47World, wit map[strin
 				okSeen[in] = true // this input existed during an apply that completed
 			}
 		}
-		logf("apply[%s] -> err=%v attempts=%v (broken inputs %d)", phase, err, got, len(broken))
+		logf("apply[%s] -> err=%s attempts=%v (broken inputs %d)", phase, strings.ReplaceAll(fmt.Sprint(err), w.root+string(filepath.Separator), ""), got, len(broken))
 		r.Eval(1)
 		if err == nil && len(broken) == 0 {
 			expect := "either"
@@ -390,16 +390,25 @@ func vfc47Case(r *vfkit.Run, c int, rng *rand.Rand, w *vfc47World, wit map[strin
 	if c == 0 {
 		d := w.cfgDirs[0].Dir
 		script := []func(){
-			func() { _ = w.write(filepath.Join(d, "b.yml"), vfc47NewFile([]byte("ok"), false)); logf("write d0/b.yml") },
+			func() {
+				_ = w.write(filepath.Join(d, "b.yml"), vfc47NewFile([]byte("ok"), false))
+				logf("write d0/b.yml")
+			},
 			func() { _ = apply("history") },
-			func() { _ = w.write(filepath.Join(d, "a.yml"), vfc47NewFile([]byte("new"), false)); logf("add d0/a.yml") },
+			func() {
+				_ = w.write(filepath.Join(d, "a.yml"), vfc47NewFile([]byte("new"), false))
+				logf("add d0/a.yml")
+			},
 			func() {
 				_ = w.write(filepath.Join(d, "b.yml"), vfc47NewFile([]byte("x: $("+vfc47VarUnset+")"), false))
 				logf("edit d0/b.yml: references unset variable")
 			},
 			func() { _ = apply("history") },
 			func() { _ = w.remove(filepath.Join(d, "a.yml")); logf("remove d0/a.yml") },
-			func() { _ = w.write(filepath.Join(d, "b.yml"), vfc47NewFile([]byte("ok2"), false)); logf("edit d0/b.yml: fixed") },
+			func() {
+				_ = w.write(filepath.Join(d, "b.yml"), vfc47NewFile([]byte("ok2"), false))
+				logf("edit d0/b.yml: fixed")
+			},
 		}
 		for _, s := range script {
 			s()
